@@ -8,6 +8,7 @@ from sse import api
 from vh import common as C
 from vh import progs as PG
 from vh import gen as G
+from vh import catalogue as T
 from fparser.two.utils import walk, Base
 from fparser.two import Fortran2003 as F
 from fparser.common.readfortran import FortranStringReader, FortranFileReader
@@ -39,6 +40,21 @@ def units(tier):
                 nested = (1, 2, 0)[rot % 3] if b - a >= 4 else (1, 0)[rot % 2]
             us.append(dict(h="inc_prog", prog=p, a=a, b=b, where=where, nested=nested, kind="string" if rot % 2 else "file",
                            std="f2008" if (f08 or rot % 2) else "f2003", ic=bool(rot % 3), cost=2))
+    # the statement directly in front of every construct (itself preceded by a statement) becomes
+    # the INCLUDE line: resolved, unresolved, unresolved with a directory of that name
+    for c in T.CONS:
+        p = dict(unit="program", spec=[], exec=["assign", "call_plain", [c[0], ["assign"]]])
+        for where in ("first", "absent", "absent_dir"):
+            rot += 1
+            us.append(dict(h="inc_prog", prog=p, a=2, b=3, where=where, nested=0, kind="string" if rot % 2 else "file",
+                           std="f2008" if (G.is_f08(p) or rot % 2) else "f2003", ic=bool(rot % 3), cost=1))
+    # every single statement replaced by an INCLUDE line whose file does not exist
+    for p in progs:
+        n = len(_lines(p))
+        for a in range(1, n):
+            rot += 1
+            us.append(dict(h="inc_prog", prog=p, a=a, b=a + 1, where="absent" if rot % 3 else "absent_dir", nested=0, kind="string" if rot % 2 else "file",
+                           std="f2008" if (G.is_f08(p) or rot % 2) else "f2003", ic=bool(rot % 3), cost=1))
     return us
 
 
